@@ -65,10 +65,12 @@ def check_model(m, acc, fam, k, only_edge=None):
     explicit = not obj.generated_id
     edges = {}
     try:
-        o1, _ = bind(m)
+        # every fifth model: the leaves are instances of a user-defined SUBCLASS of puan.variable (what a caller's domain classes are)
+        sub = (k % 5 == 2)
+        o1, _ = bind(m, leaf_subclass=sub)
         n1 = o1.negate()
         edges["negate"] = (n1, [1 - e for e in expect], safe0, obj.id if explicit else None)
-        o2, _ = bind(m)
+        o2, _ = bind(m, leaf_subclass=sub)
         edges["Not"] = (pg.Not(o2), [1 - e for e in expect], safe0, obj.id if explicit else None)
         n2 = n1.negate()
         edges["negate.negate"] = (n2, expect, None, obj.id if explicit else None)
